@@ -7,6 +7,7 @@ import PygVerif.Model.Skel
 import PygVerif.Model.Umn
 import PygVerif.Model.Cache
 import PygVerif.Model.Fail
+import PygVerif.Model.Zip
 /-!
 # Driver — line protocol between the Python harness and the executable model
 
@@ -230,6 +231,25 @@ def step (fields : List String) : String :=
     (match o.escaped with | some c => toString c | none => "-") ++ "\t" ++
       " ".intercalate ((Fail.logsOf o).map toString) ++ "\t" ++ toString (Fail.opens o) ++ "\t" ++ toString (Fail.closes o) ++ "\t" ++
       toString (o.events.filter fun e => match e with | .write _ => true | _ => false).length
+  | ["zipindex", members, queries] =>
+    -- members: space separated `name;orig;L|F;dest`; queries: list of zip-internal path strings
+    let ms : List Zip.Member := if members == "~" then [] else (members.splitOn " ").filterMap fun r =>
+      match r.splitOn ";" with
+      | [n, o, l, d] => some { name := decStr n, orig := decStr o, isLink := l == "L", dest := decStr d }
+      | _ => none
+    (match Zip.buildIndex ms with
+     | none => "CRASH"
+     | some ix =>
+       " ".intercalate ((decList queries).map fun q =>
+         (match Zip.kindAt ix q with
+          | some .dir => "d"
+          | some (.file o) => "f:" ++ encStr o
+          | none => "-") ++ "|" ++
+         (match Zip.listdir ix q with
+          | some l => encList l
+          | none => "!")))
+  | ["normpath", s] => encStr (Zip.normpath (decStr s))
+  | ["pathsplit", s] => let (a, b) := Zip.pathSplit (decStr s); encStr a ++ "\t" ++ encStr b
   | ["skeleton", st, page] =>
     let (s, k) := run (tstateOf st) (decStr page)
     (match s with | .text => "text" | .tag => "tag" | .attrDq => "dq" | .attrSq => "sq") ++ "\t" ++ encStr k
